@@ -7,18 +7,22 @@
 // (the stub does not touch it) and never dropped (core::mem::forget).
 //
 #[cfg(kani)]
-static mut VERIF_MATCH_ANSWERS: [bool; 4] = [false; 4];
+static mut VERIF_MATCH_ANSWERS: [bool; 8] = [false; 8];
 
 #[cfg(kani)]
 impl FilterPattern {
-    /// opaque pattern number `tag` (0..=3)
+    /// opaque pattern number `tag` (0..=7)
     pub(crate) fn verif_fake(tag: u8) -> Self {
         let mut m = core::mem::MaybeUninit::<FilterPattern>::uninit();
         let name = match tag {
             0 => "0",
             1 => "1",
             2 => "2",
-            _ => "3",
+            3 => "3",
+            4 => "4",
+            5 => "5",
+            6 => "6",
+            _ => "7",
         };
         unsafe {
             core::ptr::addr_of_mut!((*m.as_mut_ptr()).original).write(String::from(name));
@@ -26,6 +30,14 @@ impl FilterPattern {
         }
     }
     pub(crate) fn verif_set_answers(answers: [bool; 4]) {
+        unsafe {
+            VERIF_MATCH_ANSWERS[0] = answers[0];
+            VERIF_MATCH_ANSWERS[1] = answers[1];
+            VERIF_MATCH_ANSWERS[2] = answers[2];
+            VERIF_MATCH_ANSWERS[3] = answers[3];
+        }
+    }
+    pub(crate) fn verif_set_answers8(answers: [bool; 8]) {
         unsafe { VERIF_MATCH_ANSWERS = answers };
     }
     /// the abstract match relation: a symbolic-but-fixed answer per pattern, independent of the path
